@@ -37,7 +37,9 @@ impl FileSystem for PhysicalFS {
         let entries = Box::new(
             self.get_path(path)
                 .read_dir()?
-                .map(|entry| entry.unwrap().file_name().into_string().unwrap()),
+                // entries that cannot be read or whose name is not valid UTF-8 cannot be
+                // addressed through a vfs path, skip them instead of panicking
+                .filter_map(|entry| entry.ok()?.file_name().into_string().ok()),
         );
         Ok(entries)
     }
@@ -46,8 +48,11 @@ impl FileSystem for PhysicalFS {
         let fs_path = self.get_path(path);
         std::fs::create_dir(&fs_path).map_err(|err| match err.kind() {
             ErrorKind::AlreadyExists => {
-                let metadata = std::fs::metadata(&fs_path).unwrap();
-                if metadata.is_dir() {
+                // metadata can fail here, e.g. for a dangling symlink
+                let is_dir = std::fs::metadata(&fs_path)
+                    .map(|metadata| metadata.is_dir())
+                    .unwrap_or(false);
+                if is_dir {
                     return VfsError::from(VfsErrorKind::DirectoryExists);
                 }
                 VfsError::from(VfsErrorKind::FileExists)
